@@ -585,14 +585,16 @@ impl<C: Config> World<C> {
                 if !C::clone_ops(self, a, out) {
                     let src: &V<C> = self.v(x);
                     match st(a, "via") {
-                        "same" => ce_probe_basic::<C, C::M>(src, src.clone_empty(), out),
-                        "stack" => ce_probe_basic::<C, any_vec::mem::Stack<512>>(src, src.clone_empty_in(any_vec::mem::Stack::<512>), out),
-                        "stackn" => ce_probe_basic::<C, any_vec::mem::StackN<3, 512>>(src, src.clone_empty_in(any_vec::mem::StackN::<3, 512>), out),
-                        "fence" => ce_probe_basic::<C, fence::FenceMemBuilder>(src, src.clone_empty_in(fence::FenceMemBuilder), out),
+                        "same" => ce_probe_basic::<C, C::M>(src, src.clone_empty(), out, { let (f, c, _) = C::backend(); if f { c.min(2) } else { -1 } }),
+                        "stack" => ce_probe_basic::<C, any_vec::mem::Stack<512>>(src, src.clone_empty_in(any_vec::mem::Stack::<512>), out, -1),
+                        "stackn" => ce_probe_basic::<C, any_vec::mem::StackN<3, 512>>(src, src.clone_empty_in(any_vec::mem::StackN::<3, 512>), out, -1),
+                        "stackn1" => ce_probe_basic::<C, any_vec::mem::StackN<1, 256>>(src, src.clone_empty_in(any_vec::mem::StackN::<1, 256>), out, -1),
+                        "empty" => ce_probe_basic::<C, any_vec::mem::Empty>(src, src.clone_empty_in(any_vec::mem::Empty), out, 0),
+                        "fence" => ce_probe_basic::<C, fence::FenceMemBuilder>(src, src.clone_empty_in(fence::FenceMemBuilderK::<1>), out, -1),
                         #[cfg(feature = "alloc")]
-                        "heap" => ce_probe_basic::<C, any_vec::mem::Heap>(src, src.clone_empty_in(any_vec::mem::Heap), out),
+                        "heap" => ce_probe_basic::<C, any_vec::mem::Heap>(src, src.clone_empty_in(any_vec::mem::Heap), out, -1),
                         #[cfg(not(feature = "alloc"))]
-                        "heap" => ce_probe_basic::<C, any_vec::mem::Stack<512>>(src, src.clone_empty_in(any_vec::mem::Stack::<512>), out),
+                        "heap" => ce_probe_basic::<C, any_vec::mem::Stack<512>>(src, src.clone_empty_in(any_vec::mem::Stack::<512>), out, -1),
                         v => panic!("driver: bad via {}", v),
                     }
                 }
@@ -1014,13 +1016,15 @@ fn ce_check<C: Config, M2: MemBuilder>(src: &V<C>, t: &AnyVec<C::Tr, M2>, out: &
     }
 }
 /// clone_empty / clone_empty_in probe without cloning: the twin accepts a value, reports it, destroys it
-pub fn ce_probe_basic<C: Config, M2: MemBuilder>(src: &V<C>, mut t: AnyVec<C::Tr, M2>, out: &mut ActOut) {
+pub fn ce_probe_basic<C: Config, M2: MemBuilder>(src: &V<C>, mut t: AnyVec<C::Tr, M2>, out: &mut ActOut, room: i64) {
     ce_check::<C, M2>(src, &t, out);
-    let val = mk_elem::<C>(out);
-    let d = val.decode_self();
-    t.push(AnyValueWrapper::new(val));
-    let got = t.downcast_ref::<C::E>().map(|s| s.as_slice()[0].decode_self());
-    if got != Some(d) || t.len() != 1 { out.note.push("bad_ce_value".to_string()); }
+    if room != 0 {
+        let val = mk_elem::<C>(out);
+        let d = val.decode_self();
+        t.push(AnyValueWrapper::new(val));
+        let got = t.downcast_ref::<C::E>().map(|s| s.as_slice()[0].decode_self());
+        if got != Some(d) || t.len() != 1 { out.note.push("bad_ce_value".to_string()); }
+    }
     drop(t);
 }
 
@@ -1039,15 +1043,15 @@ where C::Tr: any_vec::traits::Cloneable {
         }
         "ce_probe" => {
             let src: &V<C> = w.v(x);
-            macro_rules! probe { ($t:expr) => {{
+            macro_rules! probe { ($t:expr, $fixedcap:expr) => {{
                 let mut t = $t;
                 let mut bad = false;
                 if t.len() != 0 { bad = true; }
                 if t.element_typeid() != src.element_typeid() || t.element_layout() != src.element_layout()
                     || t.element_drop().is_some() != src.element_drop().is_some() { out.note.push("bad_ce_type".to_string()); }
-                let val = mk_elem::<C>(out);
-                t.push(AnyValueWrapper::new(val));
-                if src.len() > 0 { t.push(src.at(0).lazy_clone()); }
+                let room = if $fixedcap < 0 { 2 } else { $fixedcap };
+                if room >= 1 { let val = mk_elem::<C>(out); t.push(AnyValueWrapper::new(val)); }
+                if room >= 2 && src.len() > 0 { t.push(src.at(0).lazy_clone()); }
                 let t2 = t.clone();
                 if t2.len() != t.len() { bad = true; }
                 {
@@ -1056,20 +1060,21 @@ where C::Tr: any_vec::traits::Cloneable {
                     for k in 0..t.len() { if s1.as_slice()[k].decode_self().1 != s2.as_slice()[k].decode_self().1 { bad = true; } }
                 }
                 drop(t2);
-                let p = t.pop().unwrap();
-                drop(p);
+                if let Some(p) = t.pop() { drop(p); }
                 drop(t);
                 if bad { out.note.push("bad_ce_len".to_string()); }
             }}}
             match st(a, "via") {
-                "same" => probe!(src.clone_empty()),
-                "stack" => probe!(src.clone_empty_in(any_vec::mem::Stack::<512>)),
-                "stackn" => probe!(src.clone_empty_in(any_vec::mem::StackN::<3, 512>)),
-                "fence" => probe!(src.clone_empty_in(fence::FenceMemBuilder)),
+                "same" => probe!(src.clone_empty(), { let (f, c, _) = C::backend(); if f { c.min(2) } else { -1 } }),
+                "stack" => probe!(src.clone_empty_in(any_vec::mem::Stack::<512>), -1),
+                "stackn" => probe!(src.clone_empty_in(any_vec::mem::StackN::<3, 512>), -1),
+                "stackn1" => probe!(src.clone_empty_in(any_vec::mem::StackN::<1, 256>), 1),
+                "empty" => probe!(src.clone_empty_in(any_vec::mem::Empty), 0),
+                "fence" => probe!(src.clone_empty_in(fence::FenceMemBuilderK::<1>), -1),
                 #[cfg(feature = "alloc")]
-                "heap" => probe!(src.clone_empty_in(any_vec::mem::Heap)),
+                "heap" => probe!(src.clone_empty_in(any_vec::mem::Heap), -1),
                 #[cfg(not(feature = "alloc"))]
-                "heap" => probe!(src.clone_empty_in(any_vec::mem::Stack::<512>)),
+                "heap" => probe!(src.clone_empty_in(any_vec::mem::Stack::<512>), -1),
                 v => panic!("driver: bad via {}", v),
             }
         }
